@@ -57,7 +57,8 @@ SINGLETONS = (6, 30, 39, 47, 5)      # dns.rdatatype._singletons: adding a recor
 IN, CH = 1, 3
 T32 = 1 << 32
 ORIGIN = dns.name.from_text("example.")
-IN_NAMES = {1: "a", 2: "b", 3: "ns1", 4: "ns2", 5: "a.b", 6: "*", 7: "mail", 8: "x.y.z"}
+IN_NAMES = {1: "a", 2: "b", 3: "ns1", 4: "ns2", 5: "a.b", 6: "*", 7: "mail", 8: "x.y.z",
+            9: "z", 10: "y.z", 11: "c.a.b", 12: "d.c.a.b"}      # 9..12: only used by deleg_cases
 OUT_NAMES = {-1: "other.", -2: "ns.example.net.", -3: "notexample."}
 SOAKEY = (0, SOA, 0)
 
@@ -1491,6 +1492,58 @@ def cname_cases(ctx, rng, n):
         yield "cname-conflict", mk_case(zk, rel, rdt, sr, 0, chain[0], msgs, FAULT, None)
 
 
+def deleg_cases(ctx):
+    """Deterministic (no RNG): transfers whose differences create a delegation (the first NS RRset at a non-apex
+    name) ABOVE names that are already in the zone and are not touched by the transfer, remove one, replace the
+    only NS record of one, and nest cuts (dns.btreezone keeps DELEGATION / GLUE flags on its nodes and rewrites the
+    nodes beneath a cut when they change).  Every ordered pair of the contents below, condensed and step by step,
+    as IXFR, as AXFR-style answer and as AXFR, in one message and one record per message, on every zone class:
+    afterwards the zone must equal the target version RRset by RRset (iteration and point lookups)."""
+    base = {(0, NS, 0): (3600, {1, 2}), (5, A, 0): (300, {1}), (5, TXT, 0): (60, {2}), (11, A, 0): (300, {2}),
+            (12, AAAA, 0): (300, {3}), (10, MX, 0): (3600, {1}), (8, A, 0): (60, {4}), (7, A, 0): (300, {5})}
+    def with_(*extra):
+        z = {k: (v[0], set(v[1])) for k, v in base.items()}
+        for k, v in extra:
+            z[k] = (v[0], set(v[1]))
+        return z
+    contents = [
+        with_(),                                                                    # no cut below the apex
+        with_(((2, NS, 0), (300, {1}))),                                            # cut at b above a.b, c.a.b, d.c.a.b
+        with_(((2, NS, 0), (300, {2}))),                                            # its only NS record replaced
+        with_(((2, NS, 0), (300, {2})), ((5, NS, 0), (300, {3})), ((9, NS, 0), (60, {1, 2}))),   # nested cut at a.b; cut at z above y.z, x.y.z
+        with_(((5, NS, 0), (300, {3})), ((9, NS, 0), (60, {2}))),                   # outer cut removed, inner stays
+        with_(((11, NS, 0), (300, {1})), ((2, NS, 0), (300, {1, 3}))),              # cuts at b and c.a.b, none at a.b / z
+    ]
+    def version(c, serial):
+        z = {k: (v[0], set(v[1])) for k, v in c.items()}
+        z[SOAKEY] = (3600, {serial})
+        return z
+    idx = 0
+    n = len(contents)
+    for i in range(n):
+        for j in range(n):
+            if i == j:
+                continue
+            step = 1 if j > i else -1
+            path = list(range(i, j + step, step))
+            chains = [[version(contents[i], 10), version(contents[j], 11)]]
+            if len(path) > 2:
+                chains.append([version(contents[k], 10 + m) for m, k in enumerate(path)])
+            for chain in chains:
+                s0 = soa_id(chain[0]) & 0xFFFFFFFF
+                streams = [(IXFR, s0, ixfr_stream(None, chain))]
+                if len(chain) == 2:
+                    streams.append((IXFR, s0, axfr_stream(None, chain[-1])))
+                    if (i + j) % 3 == 0:
+                        streams.append((AXFR, None, axfr_stream(None, chain[-1])))
+                for rdt, ser, recs in streams:
+                    for zk in ((2, 5, 0, 1) if len(chain) == 2 and rdt == IXFR and len(recs) > 2 else (2,)):
+                        idx += 1
+                        chunks = [recs] if idx % 2 else [[r] for r in recs]
+                        yield "deleg", mk_case(zk, idx % 2 if zk == 2 else (idx // 2) % 2, rdt, ser, 0, chain[0],
+                                               msgs_of(chunks, rdt), VALID, chain[-1])
+
+
 def malformed_cases(ctx, rng, n):
     """arbitrary record soup: only 'an error leaves the zone untouched' is demanded"""
     for _ in range(n):
@@ -1895,6 +1948,7 @@ def cases(ctx):
     rng = ctx.rng
     yield from misc_cases(ctx, rng)
     yield from exhaustive_cases(ctx, rng)
+    yield from deleg_cases(ctx)
     yield from valid_cases(ctx, rng, ctx.n(400, 4500))
     yield from must_error_cases(ctx, rng, ctx.n(350, 3000))
     yield from fault_cases(ctx, rng, ctx.n(400, 4500))
